@@ -6,6 +6,7 @@ open Ps3 Ps3.Spec.C13
 structure ObsLine where
   toks : List Tok
   ended : Bool          -- an "end=" token was present (the session ran to its end)
+  endHung : Bool        -- … and the client waited in vain for the server to end the connection
   leak : Nat
   alive : Bool
 
@@ -22,7 +23,7 @@ def parseObs (s : String) : ObsLine :=
     else none)
   let find (k : String) : Option String :=
     (parts.find? (fun p => p.startsWith (k ++ "="))).map (fun p => (p.drop (k.length + 1)).toString)
-  ⟨toks, (find "end").isSome, ((find "leak").bind String.toNat?).getD 99, find "alive" == some "1"⟩
+  ⟨toks, (find "end").isSome, ((find "end").map (·.startsWith "T:")) == some true, ((find "leak").bind String.toNat?).getD 99, find "alive" == some "1"⟩
 
 def parseOpsHex (s : String) : List Nat :=
   (s.splitOn ",").map (fun h => ((fromHex h).map fromBE).getD 0)
@@ -34,7 +35,7 @@ def c13Op (args : List String) : String :=
     | [b, g] =>
       let base := parseObs b
       let got := parseObs g
-      match judge (parseOpsHex ops) (kind == "short") base.toks got.toks got.leak got.alive got.ended with
+      match judgeEnd got.endHung (parseOpsHex ops) (kind == "short") base.toks got.toks got.leak got.alive got.ended with
       | .ok => "ok"
       | .bad i why => s!"bad:{i}:{why}"
     | _ => "bad-op"
